@@ -304,7 +304,10 @@ def oracle(case: dict, obs: dict) -> list[str]:
         fails.append(f"{len(groups)} tags in the document but {len(props)} tag properties on APIClient")
     by_file = {(m, c): defs for m, c, defs in obs["files"]}
     for k, members in groups.items():
-        cand = [x for x in props if norm_tag(x[0]) == k]
+        # a property is the tag's if its name normalises to the tag, or to the tag without its non-ASCII characters
+        # (sanitize_module_name drops them: tag 'café' is served by property `caf`)
+        k_ascii = "".join(ch for ch in k if ch.isascii())
+        cand = [x for x in props if norm_tag(x[0]) == k or (k_ascii and norm_tag(x[0]) == k_ascii)]
         if len(cand) != 1:
             fails.append(f"tag {k!r}: {len(cand)} matching properties on APIClient (expected exactly one)")
             continue
